@@ -150,6 +150,9 @@ type ReqOpt struct {
 	// Sized allows sized(s: Size, l: [Size]): enum literals as arguments, one of
 	// them (HUGE) only a value once the schema has been extended.
 	Sized bool
+	// Tune allows the schema's own executable directive @tune (list and
+	// input-object argument defaults) on fields and fragments.
+	Tune bool
 	// BadDefaults now and then declares a variable with a default that does not
 	// fit its type (the document is accepted; a call that leaves the variable
 	// out fails, every time).
@@ -385,6 +388,12 @@ func (g *reqGen) directive() string {
 		return " @include(if: " + g.addVar("inc", "Boolean!", true, "true") + ")"
 	case 4:
 		return " @skip(if: true)"
+	case 5, 6:
+		if g.o.Tune {
+			// a directive of the schema with list and input-object argument
+			// defaults; arguments mostly left out
+			return []string{" @tune", " @tune", " @tune(n: 4)", ` @tune(opts: ["x"])`, " @tune(r: {hi: 2})", " @tune(r: {}, opts: [])"}[g.t.Draw(6)]
+		}
 	}
 	return ""
 }
